@@ -3,15 +3,20 @@
 package hx
 
 import (
+	"bufio"
 	"crypto/sha256"
 	"encoding/hex"
 	"encoding/json"
 	"flag"
 	"fmt"
+	"io"
 	"os"
+	"os/exec"
 	"path/filepath"
 	"sort"
 	"strings"
+	"sync"
+	"time"
 )
 
 // ---------- PRNG (splitmix64): every random choice of an engine derives from one state ----------
@@ -42,10 +47,10 @@ func (r *Rand) Intn(n int) int {
 	}
 	return int(r.U64() % uint64(n))
 }
-func (r *Rand) Range(lo, hi int) int { return lo + r.Intn(hi-lo+1) } // inclusive
-func (r *Rand) Bool() bool           { return r.U64()&1 == 1 }
+func (r *Rand) Range(lo, hi int) int     { return lo + r.Intn(hi-lo+1) } // inclusive
+func (r *Rand) Bool() bool               { return r.U64()&1 == 1 }
 func (r *Rand) Chance(num, den int) bool { return r.Intn(den) < num }
-func (r *Rand) Fork() *Rand          { return NewRand(r.U64()) }
+func (r *Rand) Fork() *Rand              { return NewRand(r.U64()) }
 func (r *Rand) Bytes(n int) []byte {
 	b := make([]byte, n)
 	for i := range b {
@@ -131,10 +136,10 @@ func Op(v any) json.RawMessage { b, _ := json.Marshal(v); return b }
 
 // Result of executing one case on the implementation.
 type Result struct {
-	Term       string         // Gallina term of the engine's `case` type, observed outputs included
-	Nontrivial bool           // by the engine's stated rule
-	Tags       []string       // distribution tags (regimes reached, error kinds, sizes)
-	Observed   any            // JSON-friendly observed outputs, written into the replay / cases.jsonl
+	Term       string   // Gallina term of the engine's `case` type, observed outputs included
+	Nontrivial bool     // by the engine's stated rule
+	Tags       []string // distribution tags (regimes reached, error kinds, sizes)
+	Observed   any      // JSON-friendly observed outputs, written into the replay / cases.jsonl
 }
 
 type Engine interface {
@@ -189,6 +194,9 @@ func Main(e Engine) {
 	corpus := flag.String("corpus", "", "directory of corpus cases (*.json), run first")
 	casesFile := flag.String("cases", "", "run exactly these cases (jsonl) instead of generating")
 	shard := flag.Int("shard", 250, "cases per cases_<k>.v")
+	worker := flag.Bool("worker", false, "internal: execute cases from -from and print one JSON line per case on stdout")
+	from := flag.Int("from", 0, "internal: first case index for -worker")
+	caseTimeout := flag.Int("casetimeout", 180, "seconds without progress after which the executing case is declared hung")
 	flag.Parse()
 	if *out == "" {
 		fmt.Fprintln(os.Stderr, "need -out")
@@ -262,20 +270,23 @@ func Main(e Engine) {
 		meta.Shards = append(meta.Shards, name)
 		terms = nil
 	}
-	for i, c := range cases {
-		res, err, pan := safeExecute(e, *mode, c)
+	if *worker {
+		runWorker(e, *mode, cases, *from)
+		return
+	}
+	record := func(i int, c *Case, res *Result, err error, pan any) {
 		if pan != nil {
 			meta.Evaluations++
 			meta.Panics = append(meta.Panics, map[string]any{"index": i, "case": c, "panic": pan})
 			b, _ := json.Marshal(map[string]any{"index": i, "case": c, "panic": pan})
 			jl.Write(append(b, '\n'))
-			continue
+			return
 		}
 		if err != nil {
 			meta.ExecErrors = append(meta.ExecErrors, fmt.Sprintf("case %d (%s): %v", i, c.Name, err))
 			b, _ := json.Marshal(map[string]any{"index": i, "case": c, "exec_error": err.Error()})
 			jl.Write(append(b, '\n'))
-			continue
+			return
 		}
 		meta.Evaluations++
 		h := c.Hash()
@@ -296,9 +307,179 @@ func Main(e Engine) {
 			flush()
 		}
 	}
+	if os.Getenv("HX_INPROCESS") == "1" {
+		for i, c := range cases {
+			res, err, pan := safeExecute(e, *mode, c)
+			record(i, c, res, err, pan)
+		}
+	} else {
+		supervise(*out, cases, *caseTimeout, record)
+	}
 	flush()
 	mb, _ := json.MarshalIndent(meta, "", " ")
 	if err := os.WriteFile(filepath.Join(*out, "meta.json"), mb, 0o644); err != nil {
 		panic(err)
 	}
+}
+
+// ---------- supervisor / worker: the implementation runs in a child process, so that a panic in ANY goroutine of the real
+// code (or a hang) is attributed to the case being executed and the remaining cases still run ----------
+
+type workerLine struct {
+	Start *int    `json:"start,omitempty"`
+	I     int     `json:"i"`
+	Res   *Result `json:"res,omitempty"`
+	Err   string  `json:"err,omitempty"`
+	Panic string  `json:"panic,omitempty"`
+}
+
+func runWorker(e Engine, mode string, cases []*Case, from int) {
+	w := bufio.NewWriter(os.Stdout)
+	enc := json.NewEncoder(w)
+	for i := from; i < len(cases); i++ {
+		ii := i
+		enc.Encode(workerLine{Start: &ii, I: i})
+		w.Flush()
+		res, err, pan := safeExecute(e, mode, cases[i])
+		l := workerLine{I: i, Res: res}
+		if pan != nil {
+			l.Panic = fmt.Sprintf("%v", pan)
+			l.Res = nil
+		} else if err != nil {
+			l.Err = err.Error()
+			l.Res = nil
+		}
+		enc.Encode(l)
+		w.Flush()
+	}
+}
+
+type tailBuf struct {
+	mu  sync.Mutex
+	buf []byte
+}
+
+func (t *tailBuf) Write(p []byte) (int, error) {
+	t.mu.Lock()
+	t.buf = append(t.buf, p...)
+	if len(t.buf) > 6000 {
+		t.buf = t.buf[len(t.buf)-6000:]
+	}
+	t.mu.Unlock()
+	return len(p), nil
+}
+func (t *tailBuf) String() string { t.mu.Lock(); defer t.mu.Unlock(); return string(t.buf) }
+
+func supervise(out string, cases []*Case, caseTimeout int, record func(int, *Case, *Result, error, any)) {
+	all := filepath.Join(out, "all_cases.jsonl")
+	f, err := os.Create(all)
+	if err != nil {
+		panic(err)
+	}
+	for _, c := range cases {
+		b, _ := json.Marshal(c)
+		f.Write(append(b, '\n'))
+	}
+	f.Close()
+	next := 0
+	for next < len(cases) {
+		args := append([]string{}, os.Args[1:]...)
+		args = append(args, "-cases", all, "-worker", "-from", fmt.Sprint(next))
+		cmd := exec.Command(os.Args[0], args...)
+		stdout, _ := cmd.StdoutPipe()
+		tail := &tailBuf{}
+		cmd.Stderr = tail
+		if err := cmd.Start(); err != nil {
+			panic(err)
+		}
+		lines := make(chan workerLine)
+		go func() {
+			rd := bufio.NewReaderSize(stdout, 1<<20)
+			for {
+				b, err := rd.ReadBytes('\n')
+				if len(b) > 0 {
+					var l workerLine
+					if json.Unmarshal(b, &l) == nil {
+						lines <- l
+					}
+				}
+				if err != nil {
+					if err != io.EOF {
+						fmt.Fprintln(os.Stderr, "worker read:", err)
+					}
+					close(lines)
+					return
+				}
+			}
+		}()
+		started := -1
+		hung := false
+	loop:
+		for {
+			select {
+			case l, ok := <-lines:
+				if !ok {
+					break loop
+				}
+				if l.Start != nil {
+					started = *l.Start
+					continue
+				}
+				switch {
+				case l.Panic != "":
+					record(l.I, cases[l.I], nil, nil, l.Panic)
+				case l.Err != "":
+					record(l.I, cases[l.I], nil, fmt.Errorf("%s", l.Err), nil)
+				default:
+					record(l.I, cases[l.I], l.Res, nil, nil)
+				}
+				next = l.I + 1
+				started = -1
+			case <-time.After(time.Duration(caseTimeout) * time.Second):
+				hung = true
+				cmd.Process.Kill()
+				break loop
+			}
+		}
+		if hung {
+			for range lines {
+			}
+		}
+		werr := cmd.Wait()
+		if next >= len(cases) && started < 0 {
+			break
+		}
+		if started >= 0 {
+			what := fmt.Sprintf("the process running the implementation died while executing this case (%v): %s", werr, lastLines(tail.String(), 12))
+			if hung {
+				what = fmt.Sprintf("no progress for %d s while executing this case (hang / deadlock / livelock); worker killed", caseTimeout)
+			}
+			record(started, cases[started], nil, nil, what)
+			next = started + 1
+		} else if werr != nil {
+			// died between cases: report against the next case as an execution error and move on
+			if next < len(cases) {
+				record(next, cases[next], nil, fmt.Errorf("worker died before starting the case (%v): %s", werr, lastLines(tail.String(), 8)), nil)
+				next++
+			}
+		}
+	}
+}
+
+func lastLines(s string, n int) string {
+	ls := strings.Split(strings.TrimSpace(s), "\n")
+	// the panic message is at the top of a Go crash dump: keep the first lines that mention it plus the tail
+	for i, l := range ls {
+		if strings.HasPrefix(l, "panic:") || strings.HasPrefix(l, "fatal error:") {
+			end := i + n
+			if end > len(ls) {
+				end = len(ls)
+			}
+			return strings.Join(ls[i:end], " | ")
+		}
+	}
+	if len(ls) > n {
+		ls = ls[len(ls)-n:]
+	}
+	return strings.Join(ls, " | ")
 }
